@@ -10,6 +10,14 @@ namespace BitString
 /-- abstraction: the written bits -/
 def abs (s : BitString) : List Bool := (bytesToBits s.buf).take s.len
 
+/-- representation invariant: length within capacity, capacity within the buffer, cursor within the length, and
+all buffer bits from `len` on are zero ("tail clean": the buffer is the canonical encoding of the written bits) -/
+def Inv (s : BitString) : Prop :=
+  s.len ≤ s.cap ∧ s.cap ≤ 8 * s.buf.length ∧ s.rCursor ≤ s.len ∧
+  (bytesToBits s.buf).drop s.len = List.replicate (8 * s.buf.length - s.len) false
+
+instance (s : BitString) : Decidable (Inv s) := by unfold Inv; exact inferInstance
+
 /-- canonical bit string holding `l` (capacity = length): what `NewBitString(len)` + `WriteBit…` builds -/
 def ofBits (l : List Bool) : BitString := (writeBitArray l (new l.length)).2
 
